@@ -2,10 +2,13 @@ package c13
 
 import (
 	"fmt"
+	"github.com/go-kid/ioc"
 	"github.com/go-kid/ioc/container"
+	"github.com/go-kid/ioc/container/support"
 	"math"
 	"os"
 	"reflect"
+	"strings"
 	"sync"
 	"testing"
 
@@ -469,4 +472,63 @@ func TestGlobalSettingsRunner(t *testing.T) {
 		}
 		kit.Rec.Case(desc, !s.NoHook, "runner-through-global-settings")
 	})
+}
+
+// ---- runners announced process-wide (ioc.Register), started through ioc.Run - own process ------------------------
+
+type gregRunner struct {
+	name  string
+	calls int
+	fail  bool
+	log   *[]string
+}
+
+func (g *gregRunner) Naming() string { return g.name }
+func (g *gregRunner) Run() error {
+	g.calls++
+	*g.log = append(*g.log, g.name)
+	if g.fail {
+		return zoo.ErrInjected
+	}
+	return nil
+}
+
+func TestStaticRegisteredRunners(t *testing.T) {
+	if os.Getenv("VERIF_GLOBAL_SETTINGS") != "1" {
+		t.Skip("changes process-wide state: runs in a process of its own")
+	}
+	kit.Rec.Rule(rule)
+	var log []string
+	r1, r2 := &gregRunner{name: "greg-runner-1", log: &log}, &gregRunner{name: "greg-runner-2", log: &log}
+	ioc.Register(r1, r2)
+	for round, mode := range []string{"plain", "own-registry", "own-registry+registered-fails", "plain"} {
+		log = nil
+		r1.calls, r2.calls = 0, 0
+		r1.fail = strings.Contains(mode, "fails")
+		local := &gregRunner{name: "local-runner", log: &log}
+		ops := []app.SettingOption{app.SetComponents(local)}
+		if strings.HasPrefix(mode, "own-registry") {
+			ops = append([]app.SettingOption{app.SetRegistry(support.NewRegistry())}, ops...)
+		}
+		var err error
+		if p := kit.Protect(func() { _, err = ioc.Run(ops...) }); p != nil {
+			t.Fatalf("C13: ioc.Run panicked: %v", p)
+		}
+		desc := fmt.Sprintf("two runners announced through ioc.Register, one passed to ioc.Run (run %d, %s)", round, mode)
+		if r1.fail {
+			// the failing registered runner is a registered runner: Run reports its error, it ran once, and at most the
+			// runners sequenced before it ran
+			if err == nil || r1.calls != 1 {
+				kit.DumpReplay("c13-registered-runners", map[string]any{"scenario": desc, "sequence": log, "error": fmt.Sprint(err)})
+				t.Fatalf("C13: %s: the registered runner fails, yet Run returned %v after the sequence %v (the failing runner ran %d times)", desc, err, log, r1.calls)
+			}
+			kit.Rec.Case(desc, true, "registered-runners")
+			continue
+		}
+		if err != nil || r1.calls != 1 || r2.calls != 1 || local.calls != 1 {
+			kit.DumpReplay("c13-registered-runners", map[string]any{"scenario": desc, "sequence": log, "error": fmt.Sprint(err)})
+			t.Fatalf("C13: %s: Run returned %v; invocations: registered %d / %d, local %d (each exactly once expected; sequence %v)", desc, err, r1.calls, r2.calls, local.calls, log)
+		}
+		kit.Rec.Case(desc, mode != "plain", "registered-runners")
+	}
 }
